@@ -29,9 +29,10 @@ def run_case(case_id: int, ops_override=None, target_override=None):
     nh = rng.choice([2, 2, 3])
     # 40 % of the cases follow a template that aims at the slowest read path: every handle pins a snapshot, objects are added
     # through all handles, packed into several packs (small target) and cleaned, then every handle asks for everything at once
-    templated = ops_override is None and rng.random() < 0.4
+    t_draw, t_target = rng.random(), rng.choice([1, 40, 150])  # (drawn in every run, so that a replay sees the same later draws)
+    templated = ops_override is None and t_draw < 0.4
     if templated:
-        cfg.target = rng.choice([1, 40, 150])
+        cfg.target = t_target
     if target_override is not None:
         cfg.target = target_override
     scratch = common.mkscratch('C08')
@@ -43,6 +44,13 @@ def run_case(case_id: int, ops_override=None, target_override=None):
         first.init_container(pack_size_target=cfg.target, loose_prefix_len=cfg.prefix_len, hash_type=cfg.hash_type,
                              compression_algorithm=f'zlib+{cfg.level}')
         handles = [first] + [dos.Container(folder) for _ in range(nh - 1)]
+        if rng.random() < 0.5:
+            # the library's batch sizes lowered, so that a handful of keys crosses them (IN-lists, switch to the full scan)
+            in_max, scan_max = rng.choice([1, 2, 3]), rng.choice([0, 2, 5, 9500])
+            for hd_ in handles:
+                hd_._IN_SQL_MAX_LENGTH = in_max  # pylint: disable=protected-access
+                hd_._MAX_CHUNK_ITERATE_LENGTH = scan_max  # pylint: disable=protected-access
+            res['stats']['thresholds_lowered'] = 1
         acked: set[int] = set()
         key = lambda c: pool.key(c, cfg.hash_type)  # noqa: E731
         cid = lambda k: pool.cid_of_key(k, cfg.hash_type)  # noqa: E731
@@ -76,7 +84,7 @@ def run_case(case_id: int, ops_override=None, target_override=None):
                     if not per_pack or rng.random() < 0.5:
                         planned.append({'op': 'clean'})
                 for h_ in rng.sample(range(nh), nh):
-                    planned.append({'op': rng.choice(['bulk', 'bulk', 'bulk', 'list']), 'h': h_, 'k': rng.randrange(len(pool)), 'all': True})
+                    planned.append({'op': rng.choice(['bulk', 'bulk', 'bulkseek', 'bulkmeta', 'list']), 'h': h_, 'k': rng.randrange(len(pool)), 'all': True})
                     planned.append({'op': rng.choice(['has', 'get', 'meta', 'bulk']), 'h': h_, 'k': rng.randrange(len(pool))})
             for step in range(nops if planned is None else len(planned)):
                 if planned is not None:
@@ -92,7 +100,7 @@ def run_case(case_id: int, ops_override=None, target_override=None):
                         op = {'op': 'clean'}
                     else:
                         k = rng.choice(sorted(acked)) if acked and rng.random() < 0.8 else rng.randrange(len(pool))
-                        op = {'op': rng.choice(['has', 'get', 'meta', 'list', 'bulk']), 'h': rng.randrange(nh), 'k': k}
+                        op = {'op': rng.choice(['has', 'get', 'meta', 'list', 'bulk', 'bulkseek', 'bulkmeta']), 'h': rng.randrange(nh), 'k': k}
                 res['trace'].append(op)
                 res['steps'] += 1
                 res['stats']['op.' + op['op']] = res['stats'].get('op.' + op['op'], 0) + 1
@@ -148,6 +156,54 @@ def run_case(case_id: int, ops_override=None, target_override=None):
                                     fail('meta-size', f'handle {op["h"]}: metadata of cid {k} reports size {m["size"]}, the content has {pool.size(k)} bytes')
                             except dos.exceptions.NotExistent:
                                 found, data, real_has = 'missing', None, False
+                        elif kind in ('bulkseek', 'bulkmeta'):
+                            others = [key(x) for x in (range(len(pool)) if op.get('all') else rng.sample(range(len(pool)), rng.choice([min(3, len(pool)), len(pool)])))]
+                            req = [kk] + [o for o in others if o != kk]
+                            got = {}
+                            if kind == 'bulkmeta':
+                                for hk, m in hd.get_objects_meta(req, skip_if_missing=False):
+                                    if hk in got:
+                                        fail('bulkmeta-twice', f'handle {op["h"]}: get_objects_meta reported key of cid {cid(hk)} twice')
+                                    got[hk] = m
+                                    x = cid(hk)
+                                    if x in acked and m['type'].value != 'missing' and m['size'] != pool.size(x):
+                                        fail('bulkmeta-size', f'handle {op["h"]}: bulk metadata of cid {x} reports size {m["size"]}, the content has {pool.size(x)} bytes')
+                                    if x in acked and m['type'].value == 'missing':
+                                        fail('bulkmeta-stale', f'handle {op["h"]}: bulk metadata reports acknowledged cid {x} as missing')
+                                real_has = got[kk]['type'].value != 'missing' if kk in got else False
+                                data, found = None, None
+                            else:
+                                loose_before = set(Raw(folder).loose_bytes)
+                                with hd.get_objects_stream_and_meta(req, skip_if_missing=False) as triplets:
+                                    for hk, st, m in triplets:
+                                        x = cid(hk)
+                                        if st is None:
+                                            got[hk] = None
+                                            if x in acked:
+                                                fail('bulkseek-stale', f'handle {op["h"]}: bulk stream read reports acknowledged cid {x} as missing')
+                                            continue
+                                        want = pool.contents[x] if x is not None else None
+                                        first = st.read(3)
+                                        end = st.seek(0, 2)
+                                        st.seek(max(0, end - 2))
+                                        tail = st.read()
+                                        st.seek(0)
+                                        whole = st.read()
+                                        got[hk] = whole
+                                        if want is not None and x in acked and (first != want[:3] or end != len(want) or tail != want[max(0, len(want) - 2):] or whole != want
+                                                                                or m['size'] != len(want)):
+                                            fail('bulkseek-wrong', f'handle {op["h"]}: stream of cid {x} ({len(want)} bytes) in a bulk read: seek(0,2) gave {end}, '
+                                                                   f'size {m["size"]}, reads gave {len(first)}/{len(tail)}/{len(whole)} bytes that are not its content')
+                                data = got.get(kk)
+                                real_has = data is not None
+                                found = None
+                            for o in others:
+                                ask(f'multi get {op["h"]} {cid(o)}')
+                            if kind == 'bulkseek':
+                                # seeking in a compressed packed object re-loosens it (a cache): the same effect as adding it loose
+                                for hk in sorted(set(Raw(folder).loose_bytes) - loose_before):
+                                    ask(f'multi get {op["h"]} {cid(hk)}')
+                                    ask(f'multi add {op["h"]} {cid(hk)}')
                         elif kind == 'bulk':
                             others = [key(x) for x in (range(len(pool)) if op.get('all') else rng.sample(range(len(pool)), rng.choice([min(3, len(pool)), len(pool) - 1, len(pool)])))]
                             got = hd.get_objects_content([kk] + others, skip_if_missing=False)
